@@ -3,6 +3,7 @@
 //! inputs / operation sequences and reports where they differ; also runs the per-property search
 //! for concrete failing inputs on the real code.
 mod abacus;
+mod codec;
 mod dl;
 mod gen;
 mod kit;
@@ -19,11 +20,19 @@ use report::Ctx;
 use serde_json::{json, Value};
 use std::collections::{BTreeMap, HashSet};
 
+#[global_allocator]
+static ALLOC: codec::Tracking = codec::Tracking;
+
 fn main() {
     let args: Vec<String> = std::env::args().collect();
     if args.len() < 2 {
         eprintln!("usage: zkverif-harness <property> [--tier quick|thorough] [--seed N] [--out FILE] [--threads T]");
         std::process::exit(2);
+    }
+    if args[1] == "--decode-one" {
+        std::panic::set_hook(Box::new(|_| {}));
+        props::c15::decode_one(&args[2], &args[3]);
+        return;
     }
     let prop = args[1].clone();
     let mut tier = "quick".to_string();
